@@ -5,7 +5,8 @@
 (* every answer (C14), including captures / adaptation (C02).                 *)
 EXTENDS Estimator
 
-CONSTANTS Depth
+CONSTANTS Depth,
+          Mode      \* "all": every history; "rereg": register_system, then calls that all write the same slot
 VARIABLES ans
 vars == <<est, hist, ans>>
 
@@ -30,8 +31,19 @@ XaPoolDef == << <<1, 1>>, <<1, 1, 1>>, <<2, 0, 1>> >>
 TgtPoolDef == << <<<<r(1, 1), r(1, 1)>>, <<r(7, 2), r(1, 4)>>>>,
                  <<<<r(1, 2), r(3, 2)>>>> >>
 
+WPoolDef == << <<2, 1>>, <<1, 3>> >>
+
 MCInit == Init /\ ans = Answers(InitEst)
-MCNext == Len(hist) < Depth /\ (IF Len(hist) = 0 THEN TRUE ELSE hist[Len(hist)].op # "query") /\ ENext /\ ans' = Answers(est')
+Group(op) == CASE op \in {"register_adaptation", "register_background_adaptation", "register_system_adaptation"} -> "K"
+               [] op = "register_baseline" -> "baseline"
+               [] op \in {"register_bounds", "register_system"} -> "system"
+               [] op \in {"register_targets", "fit"} -> "targets"
+               [] OTHER -> "query"
+(* re-registration histories: the clause "re-registering a value fully replaces the old one" *)
+ReregOK(h) == IF Mode # "rereg" THEN TRUE
+              ELSE /\ h[1].op = "register_system" /\ h[1].k \in {101, 204}
+                   /\ \A i \in 2..Len(h) : Group(h[i].op) = Group(h[2].op) /\ h[i].op # "query"
+MCNext == Len(hist) < Depth /\ (IF Len(hist) = 0 THEN TRUE ELSE hist[Len(hist)].op # "query") /\ ENext /\ ReregOK(hist') /\ ans' = Answers(est')
 MCSpec == MCInit /\ [][MCNext]_vars
 DepthBound == Len(hist) <= Depth
 (* queries add nothing new to explore: do not extend histories beyond one query  *)
